@@ -285,9 +285,18 @@ Qed.
 Lemma NormInv_W l : NormInv l -> W l.
 Proof. intros (H & _); exact H. Qed.
 
+(* a dangling exponent at offset j that is followed by a line end: e or E, an optional sign,
+   then CR or LF *)
+Definition eol (c : Z) : Prop := c = 10 \/ c = 13.
+Definition dangling_eol (j : Z) : Prop :=
+  (getch src j = 101 \/ getch src j = 69) /\
+  (eol (getch src (j + 1)) \/
+   ((getch src (j + 1) = 43 \/ getch src (j + 1) = 45) /\ eol (getch src (j + 2)))).
+
 Lemma scan_exponent_spec fuel l :
   NormInv l -> ch l = 101 \/ ch l = 69 -> len + 2 - offset l <= Z.of_nat fuel ->
-  okr (fun l' => NormInv l' /\ offset l <= offset l' /\ (xl l = true -> xl l' = true))
+  okr (fun l' => NormInv l' /\ offset l <= offset l' /\ (xl l = true -> xl l' = true) /\
+                 (xl l' = true -> xl l = true \/ (offset l' = offset l /\ dangling_eol (offset l - 1))))
       (scan_exponent src fuel l).
 Proof.
   intros Hn He Hf. unfold scan_exponent.
@@ -304,7 +313,7 @@ Proof.
     eapply okr_bind; [apply (skip_digits_spec fuel false l l2 Hn2); [split; [assumption|lia]|lia]|].
     intros (g, l3) (Hn3 & (Hx3 & _) & Ho3 & _ & Hg). cbn [fst snd] in *.
     destruct g; cbn [negb].
-    + apply okr_ret. splits; try assumption; try lia; try congruence.
+    + apply okr_ret. splits; try assumption; try lia; try congruence; try (intros; left; congruence).
     + destruct Hg as [Hg|(_ & ->)]; [discriminate|].
       pose proof (NormInv_W _ Hn2) as Hw2.
       eapply okr_bind.
@@ -315,19 +324,32 @@ Proof.
       { apply (unread_spec l4 Hw4); [lia|exact Hn4|].
         replace (offset l4 - 2) with (offset l - 1) by lia. rewrite <- Hc. unfold plain; lia. }
       intros l5 (Hw5 & Ho5 & Hn5 & Hx5 & _).
-      splits; try lia. split; [assumption|]. split; [lia|assumption].
+      pose proof (NormInv_W _ Hn2) as (_ & Hc2).
+      splits; try lia. { split; [assumption|]. split; [lia|assumption]. }
+      intros Hx5t.
+      destruct (xl l) eqn:Exl; [left; reflexivity|right]. split; [lia|].
+      unfold dangling_eol, eol. rewrite <- Hc.
+      replace (offset l - 1 + 1) with (offset l1 - 1) by lia. rewrite <- Hc1.
+      replace (offset l - 1 + 2) with (offset l2 - 1) by lia. rewrite <- Hc2.
+      replace (offset l2 - 2) with (offset l1 - 1) in Hc4 by lia. rewrite <- Hc1 in Hc4.
+      split; [assumption|]. right. lia.
   - (* no sign *)
     cbn [lbind].
     eapply okr_bind; [apply (skip_digits_spec fuel false l l1 Hn1); [split; [assumption|lia]|lia]|].
     intros (g, l3) (Hn3 & (Hx3 & _) & Ho3 & _ & Hg). cbn [fst snd] in *.
     destruct g; cbn [negb].
-    + apply okr_ret. splits; try assumption; try lia; try congruence.
+    + apply okr_ret. splits; try assumption; try lia; try congruence; try (intros; left; congruence).
     + destruct Hg as [Hg|(_ & ->)]; [discriminate|].
       eapply okr_weaken.
       { apply (unread_spec l1 (conj Hb1 Hc1)); [lia|apply Hn1|].
         replace (offset l1 - 2) with (offset l - 1) by lia. rewrite <- Hc. unfold plain; lia. }
       intros l5 (Hw5 & Ho5 & Hn5 & Hx5 & _).
-      splits; try lia. split; [assumption|]. split; [lia|assumption].
+      splits; try lia. { split; [assumption|]. split; [lia|assumption]. }
+      intros Hx5t.
+      destruct (xl l) eqn:Exl; [left; reflexivity|right]. split; [lia|].
+      unfold dangling_eol, eol. rewrite <- Hc.
+      replace (offset l - 1 + 1) with (offset l1 - 1) by lia. rewrite <- Hc1.
+      split; [assumption|]. left. lia.
 Qed.
 
 End Scan.
